@@ -24,8 +24,11 @@ EVIDENCE = os.path.join(HERE, 'evidence')
 COMMON_TRUSTED = [
     "pyvc's encoding of the Python subset (DESIGN.md 2.2-2.4): mathematical integers, value semantics of local "
     "containers under the non-escape rule, static types of sidecar annotations hold by construction",
-    "collection axioms of pyvc/prelude.py (restated and proved in lean/CollectionAxioms.lean; correspondence by hand)",
-    "least-fixpoint induction schema for ghosts declared least_fixpoint (lean/Reach.lean)",
+    "collection axioms of pyvc/prelude.py (sequences, insertion-ordered maps, sets, boxing): TRUSTED, not proved; on every "
+    "run each of them is evaluated in its intended model (Python tuples / association lists / frozensets) with all "
+    "quantifiers ranging over a small universe (pyvc/axiom_model.py: a bounded sanity check of the trusted base)",
+    "least-fixpoint induction schema for ghosts declared least_fixpoint (DESIGN.md 2.9): the rule set is read as an "
+    "inductive definition; trusted",
     "partial correctness: recursive calls and pure-function axioms assume the callee contract (termination not proved "
     "unless a decreases clause is listed)",
     "z3 (E-matching, mbqi off); cvc5 as second opinion in the thorough tier",
@@ -79,7 +82,14 @@ def run(pid, tier, seed, update_ledger=False):
     errors = []
     E = None
     results = []
+    axioms_checked = None
     if getattr(prop, 'FUNCTIONS', None):
+        # the trusted base first: every prelude axiom must hold in its intended model on the small universe
+        from . import axiom_model
+        ck, sk, fl = axiom_model.check_axioms()
+        axioms_checked = dict(validated=len(ck), skipped=[n for n, _ in sk], failed=[n for n, _ in fl])
+        for n, m in fl:
+            errors.append('prelude axiom %s is %s: proofs that use it cannot be trusted' % (n, m))
         E, results = driver.verify(prop.FUNCTIONS, prop.SIDECARS, timeout_ms=timeout_ms)
     n_obl = n_dis = 0
     solver_s = 0.0
@@ -229,6 +239,7 @@ def run(pid, tier, seed, update_ledger=False):
         checker_cmd='cd /verif && ./check %s --tier %s   (pyvc VC generator over %s; z3 %s, E-matching, per-obligation timeout %d ms)'
                     % (pid, tier, os.environ.get('HEPH_REPO', '/repo'), __import__('z3').get_version_string(), timeout_ms),
         trusted_base=COMMON_TRUSTED + list(getattr(prop, 'TRUSTED', [])),
+        prelude_axioms=axioms_checked,
         functions_under_contract=per_func,
         functions_not_under_contract=list(getattr(prop, 'NOT_UNDER_CONTRACT', [])),
         solver_seconds=round(solver_s, 2),
